@@ -139,6 +139,50 @@ func main() {
 			report[p.PkgPath] = sc.summary()
 		}
 	}
+	if mode == "sched" {
+		// the pinned schema library's own synchronisation (two RWMutexes, two sync.Pools, one Once)
+		// goes through the scheduler-aware shim too: its files that import "sync" are copied with
+		// the import redirected (module cache untouched)
+		depFiles := 0
+		for _, p := range pkgs {
+			var visit func(q *packages.Package)
+			seen := map[string]bool{}
+			visit = func(q *packages.Package) {
+				if seen[q.PkgPath] {
+					return
+				}
+				seen[q.PkgPath] = true
+				if strings.HasPrefix(q.PkgPath, "github.com/jsightapi/jsight-schema-go-library") {
+					for _, fn := range q.CompiledGoFiles {
+						if _, done := overlay[fn]; done && !strings.Contains(overlay[fn], "panics") {
+							continue
+						}
+						b, err := os.ReadFile(fn)
+						if err != nil || !bytes.Contains(b, []byte("\"sync\"")) {
+							continue
+						}
+						src := string(b)
+						if prev, ok := overlay[fn]; ok { // a file already replaced by the fault overlay
+							if pb, err := os.ReadFile(prev); err == nil {
+								src = string(pb)
+							}
+						}
+						src = strings.Replace(src, "\t\"sync\"\n", "\tsync \""+vsyncPath+"\"\n", 1)
+						src = strings.Replace(src, "import \"sync\"\n", "import sync \""+vsyncPath+"\"\n", 1)
+						op := filepath.Join(out, "dep__"+strings.ReplaceAll(strings.TrimPrefix(fn, "/"), "/", "__"))
+						os.WriteFile(op, []byte(src), 0o644)
+						overlay[fn] = op
+						depFiles++
+					}
+				}
+				for _, imp := range q.Imports {
+					visit(imp)
+				}
+			}
+			visit(p)
+		}
+		report["dependency_files_with_sync_redirected"] = depFiles
+	}
 	sort.Strings(rangeSites)
 	report["map_range_sites"] = rangeSites
 	report["files_with_file_system_calls_rewritten"] = ioFiles
